@@ -124,10 +124,11 @@ type Gen struct {
 	cellCtr    int
 	globals    map[*ssa.Global]*Cell
 	cellGlobal map[*Cell]*ssa.Global
-	freshMaps  map[string]bool     // map locations made by the function and not written since (syntactic)
-	preTheory  []string            // declarations that theory modules may refer to (emitted before the theory text)
-	renames    map[string]string   // recorded local name -> current local name (source-order alignment, rename.go)
-	escaped    map[*Cell][2]string // locals moved to the pointer heap: heap name, location
+	gocallFns  map[string][2]string // helpers turned into SMT functions (gocall)
+	freshMaps  map[string]bool      // map locations made by the function and not written since (syntactic)
+	preTheory  []string             // declarations that theory modules may refer to (emitted before the theory text)
+	renames    map[string]string    // recorded local name -> current local name (source-order alignment, rename.go)
+	escaped    map[*Cell][2]string  // locals moved to the pointer heap: heap name, location
 	entry      *State
 	concrete   bool
 	uses       map[string]bool
@@ -698,6 +699,8 @@ type Frame struct {
 	loopInfos    map[*ssa.BasicBlock]*loopInfo
 	loopAlias    map[*ssa.BasicBlock]map[string]string
 	loopEntry    map[*ssa.BasicBlock]*State
+	adoptedLoops int           // loop clauses of the contract handed to inlined helpers
+	curArgs      []ssa.Value   // SSA arguments of the call being translated
 	pendingCells []pendingCell // cells created while defining phis: installed into the block's entry state
 }
 
